@@ -223,19 +223,22 @@ def harnesses(tier: str) -> List[H]:
                 modes = ["factory", "default", "class", "instance", "falsy_factory"]
             for mode in modes:
                 name = "post_{}{}_{}".format(kind, "_async" if is_async else "", mode)
-                p0hi = 3 if kind == "func" or tier == "thorough" else 2
-                p1hi = 2 if tier == "thorough" else 1
+                # thorough = every error form for every kind (quick: 1-3 forms); the deeper stacks only for the factory form
+                deep = tier == "thorough" and mode == "factory" and not is_async
+                p0hi = 3 if kind == "func" or deep else 2
+                p1hi = 2 if deep else 1
                 params = [I("p0", 0, p0hi)]
                 if kind != "func":
                     params += [I("d1", 0, 2), I("p1", 0, p1hi)]
                 params += [I("snaps", 0, 1)]
-                if kind == "func" or tier == "thorough":
+                if kind == "func" or deep:
                     params += [I("pre", 0, 1)]
                 params += [I("bo", 0, N_OUTCOMES - 1), B("fg"), B("t0"), B("t1"), B("t2")]
                 if kind != "func" and p0hi + p1hi > 3:
                     params += [B("t3")] + ([B("t4")] if p0hi + p1hi > 4 else [])
                 params += [I("x", -4, 12)]
-                out.append(H(name, _mk(kind, is_async, mode, params), params, tiers=(tier,), timeout=300,
+                out.append(H(name, _mk(kind, is_async, mode, params), params, tiers=(tier,),
+                             timeout=300 if tier == "quick" else (2400 if deep else 900),
                              family="kind={} async={} error={}; own postconditions 0..{}, optional subclass level "
                                     "(absent / not overriding / overriding with 0..{} own postconditions), snapshot 0..1, "
                                     "precondition 0..1 (func and thorough tier), body outcome in {{None, 0, '', [], object(), mutated argument, "
